@@ -28,6 +28,11 @@ NOTES = {
     "C09_e": "first evaluation: NOT detected (unsynchronised ToHeader memo, two threads; outside C09's 'inputs' quantifier, no scheduling point for the shim); C09 got a ThreadSanitizer purity probe of the model's purity assumption (harness/purity, commit 1322965) - caught (purity:data_race)",
     "C09_f": "hex table halved, out-of-bounds only where plain char is unsigned: on this platform the property holds; the constants translator no longer finds the 256-entry table -> reported as a broken tie with no-failing-input-found",
     "C03_f": "first evaluation: only 'no-failing-input-found'; structured periodic schedules (collect thread stopped inside Export, worker time-out, next cycle) - concrete (export:overlap)",
+    "C17_g": "round 4: NOT detected at first (a static result object shared by every ObservableRegistry in the process; needs two PROVIDERS collected concurrently); C17 got a ThreadSanitizer independence probe over distinct providers (commit 717ecb1) - caught (purity:data_race)",
+    "C06_g": "round 4: NOT detected at first (a process-wide static scratch key used under different storages' locks); C06 got a ThreadSanitizer independence probe over distinct instruments / view streams / meters - caught (purity:data_race)",
+    "C19_g": "round 4: NOT detected at first (a mutable scratch member of the per-provider ViewRegistry used under per-meter locks); C19 got a ThreadSanitizer independence probe (commit b17ceca) - caught (purity:data_race)",
+    "C19_h": "round 4: NOT detected at first (lazy tracer config: 'resolved' flag raised before the data is written); same probe, scenario first StartSpan on shared tracers - caught (purity:data_race)",
+    "C04_g": "round 4: NOT detected at first by C04 (SimpleSpanProcessor slot written outside the lock; needs two DIFFERENT spans ended concurrently); C04 got MRACE cases (commit cce5f01) and the simple-processor history checker of C03 got the clause export:not_the_callers_record - caught by both",
     "C01_a": "the change is in CircularBuffer::Add: caught by C11 (ring under the shim); C01 runs use the queue as an atomic FIFO (one scheduling point per queue call) by design and cannot see it",
 }
 rows = []
